@@ -802,7 +802,7 @@ func runC10(a *Args) error {
 	prelude := "From NV Require Import Base C10_Model.\n"
 	w := NewCaseWriter(a, "C10", prelude, "case", "run")
 	quick := a.Tier != "thorough"
-	w.Rule = "the real notation.Verify driven by a scripted registry.Repository and Verifier. Family A (exhaustive, seed-independent): every listing of n signatures over {verifies, fails, unfetchable, fails-without-outcome} x every composition of n into non-empty pages x every limit 1..n+1 (quick: n<=3 over 4 kinds exhaustively, plus seeded samples of n=4 over 4 kinds and n=5,6 over {verifies, fails, unfetchable} with limits around the decisive position and the end of the listing; thorough: n<=5 over 4 kinds exhaustively, seeded samples of n=6,7 over 3 kinds with all limits). Family B: empty pages inserted at every position. Family C: nil arguments, non-positive and huge limits, the four SkipVerify behaviours, tag / matching-digest / mismatching-digest / tagless / malformed references (classified by oras ParseReference itself), Resolve and ListSignatures failures, crossed with 8 representative listings. Family D: random listings of up to 14 signatures (mostly failing, so that the limit decides), random pagings with empty pages, random limits. Family H (first): histories of 2-4 Verify calls on ONE verifier and ONE repository instance whose script changes between the calls (pass then fail, fail then pass, limit / reference / resolved digest / skip changed: all ordered pairs of 16 call templates plus random histories of 3-4), each case being the last call judged on its own input. Family F: n=5..8 failing signatures with one verifying / unfetchable / outcome-less signature at EVERY position, limits below / at / beyond it, page breaks before / at / after it; and a good signature with a second odd one before or after it. Family R: 36 rarely used or nearly legal reference spellings (upper-case host, IPv6, tag+digest, several '@', sha512, upper-case hex, trailing space, empty tag or digest) x the digest the repository resolves to (equal, upper-cased, longer, shorter, other algorithm, trailing space, other). Unfetchable signatures fail with four error flavours (plain, errdef.ErrNotFound, fs.ErrNotExist, deadline); empty pages as nil or empty slices; PluginConfig/UserMetadata nil, empty or filled; SkipVerify answering a nil level or (true, err). Family X: a scripted repository that IGNORES the callback's errors (keeps delivering after done / exceeded / failure, repeats pages, delivers out of order): only the call log is observed and compared with the callback model driven over the same invocations (C10_Model.drive); at most N fetches and fetch-then-verify pairing are checked on the observed log. Family E: the real OCI-layout repository of notation-go/registry, signatures pushed with PushSignature, blobs deleted to make them unfetchable, listing order as delivered by the repository. non-trivial = the listing is reached and holds at least 2 signatures, or the case exercises a skip / pin / limit<=0 rule; distinct = distinct (arguments, reference class, paged listing, limit) tuples"
+	w.Rule = "the real notation.Verify driven by a scripted registry.Repository and Verifier. Family A (exhaustive, seed-independent): every listing of n signatures over {verifies, fails, unfetchable, fails-without-outcome} x every composition of n into non-empty pages x every limit 1..n+1 (quick: n<=3 over 4 kinds exhaustively, plus seeded samples of n=4 over 4 kinds and n=5,6 over {verifies, fails, unfetchable} with limits around the decisive position and the end of the listing; thorough: n<=5 over 4 kinds exhaustively, seeded samples of n=6,7 over 3 kinds with all limits). Family B: empty pages inserted at every position. Family C: nil arguments, non-positive and huge limits, the four SkipVerify behaviours, tag / matching-digest / mismatching-digest / tagless / malformed references (classified by oras ParseReference itself), Resolve and ListSignatures failures, crossed with 8 representative listings. Family D: random listings of up to 14 signatures (mostly failing, so that the limit decides), random pagings with empty pages, random limits. Family H (first): histories of 2-4 Verify calls on ONE verifier and ONE repository instance whose script changes between the calls (pass then fail, fail then pass, limit / reference / resolved digest / skip changed: all ordered pairs of 16 call templates plus random histories of 3-4), each case being the last call judged on its own input. Family F: n=5..8 failing signatures with one verifying / unfetchable / outcome-less signature at EVERY position, limits below / at / beyond it, page breaks before / at / after it; and a good signature with a second odd one before or after it. Family R: 36 rarely used or nearly legal reference spellings (upper-case host, IPv6, tag+digest, several '@', sha512, upper-case hex, trailing space, empty tag or digest) x the digest the repository resolves to (equal, upper-cased, longer, shorter, other algorithm, trailing space, other). Unfetchable signatures fail with four error flavours (plain, errdef.ErrNotFound, fs.ErrNotExist, deadline); empty pages as nil or empty slices; PluginConfig/UserMetadata nil, empty or filled; SkipVerify answering a nil level or (true, err). Family X: a scripted repository that IGNORES the callback's errors (keeps delivering after done / exceeded / failure, repeats pages, delivers out of order): only the call log is observed and compared with the callback model driven over the same invocations (C10_Model.drive); at most N fetches and fetch-then-verify pairing are checked on the observed log. Family W: the witness of C10_iff_without_contract_refuted and the inputs of the Examples of props/C10_Property.v (fixed). Family E: the real OCI-layout repository of notation-go/registry, signatures pushed with PushSignature, blobs deleted to make them unfetchable, listing order as delivered by the repository. non-trivial = the listing is reached and holds at least 2 signatures, or the case exercises a skip / pin / limit<=0 rule; distinct = distinct (arguments, reference class, paged listing, limit) tuples"
 	w.Assumptions = []string{
 		"Repository.ListSignatures hands the callback consecutive pages in listing order and returns the callback's first error (contract of registry.Repository; the scripted repository and the real OCI-layout repository both do)",
 		"reference classes (invalid / no tag or digest / tag / digest) are those reported by oras registry.ParseReference and ValidateReferenceAsDigest, asked by the harness for every reference string; for a digest reference the case carries ref.Reference and the String() of the digest the repository resolves to, and the MODEL compares them (C10_Model.classify)",
@@ -1360,6 +1360,39 @@ func runC10(a *Args) error {
 			wins = append(wins, [2]int{st, rng.Intn(n - st + 1)})
 		}
 		rogue(l, wins, int64(1+rng.Intn(n+2)))
+	}
+
+	// W. the inputs named in props/C10_Property.v, run on the real code: the witness of
+	// C10_iff_without_contract_refuted and the inputs of the non-vacuity Examples (fixed, seed-independent)
+	wit := func(max int64, sk, ref string, pages [][]int, lerr bool) *c10Case {
+		return &c10Case{Family: "W", Max: max, Skip: sk, Ref: ref, Pages: pages, ListErr: lerr}
+	}
+	for _, c := range []*c10Case{
+		wit(2, "NoSkipper", tagRef, [][]int{{kNO}, {kG}}, false),                         // witness_no_contract
+		wit(3, "SkipNo", digRef, [][]int{{kBd}, {}, {kBd, kG}, {kG}}, false),             // C10_example_success
+		wit(2, "SkipNo", digRef, [][]int{{kBd}, {}, {kBd, kG}, {kG}}, false),             // C10_example_limit
+		wit(5, "NoSkipper", tagRef, [][]int{{kBd, kU}, {kG}}, false),                     // C10_example_unfetchable
+		wit(4, "SkipNo", tagRef, [][]int{{kBd, kG}, {kG, kU}}, false),                    // C10_example_first_good_wins
+		wit(3, "NoSkipper", tagRef, [][]int{{kBd}, {kNO, kG}}, false),                    // C10_example_nil_outcome
+		wit(2, "SkipNo", digRef, [][]int{{kBd}, {kBd}, {kG}}, false),                     // C10_example_exceeded
+		wit(5, "NoSkipper", tagRef, [][]int{{kBd}, {}, {kBd}}, false),                    // C10_example_all_failed
+		wit(5, "NoSkipper", tagRef, [][]int{{kBd}, {}, {kBd}}, true),                     // C10_example_list_error
+		wit(1, "SkipNo", tagRef, [][]int{}, false),                                       // C10_example_empty_listing
+		wit(1, "SkipNo", tagRef, [][]int{{}, {}}, true),
+		wit(3, "SkipNo", diffRefs[0], [][]int{{kG}}, false),                              // C10_example_pin
+		wit(3, "SkipNo", digRef, [][]int{{kG}}, false),                                   // C10_example_pin_same
+		wit(3, "NoSkipper", noneRefs[0], [][]int{{kG}}, false),                           // C10_example_early_errors
+		wit(3, "SkipNo", badRefs[1], [][]int{{kG}}, false),
+		{Family: "W", Max: 3, Skip: "SkipNo", Ref: tagRef, Pages: [][]int{{kG}}, ResolveErr: true},
+		wit(0, "SkipYes", tagRef, [][]int{{kG}}, false),
+		wit(1, "SkipYes", diffRefs[0], [][]int{{kG}}, false),
+	} {
+		emit(c)
+	}
+	{ // C10_example_drive
+		c := wit(2, "NoSkipper", tagRef, [][]int{{kG, kG, kG}}, false)
+		c.Rogue = [][2]int{{0, 3}, {0, 3}}
+		emit(c)
 	}
 
 	// E. the real OCI-layout repository
